@@ -11,6 +11,9 @@ A program is a list of dict records ("lines"):
   mod      dict(k='mod',   d=depth, name=str, type=kw|None, dims=str|None, lit=LIT, unit=str|None)
   table    dict(k='table', d=depth, name=str, cols=[dict(name,type,dims,unit,cells=[text..],values=[..])])
   const    dict(k='const', d=depth)                      # "!constant", applies to the preceding node
+  prop     dict(k='prop', d=depth, text=str)             # other property line of the preceding node (option
+                                                         # "= value unit", "!condition (...)"); the generator makes sure
+                                                         # every final value satisfies it, the reference ignores it
   unitdef  dict(k='unitdef', name=str, text=str)         # "$unit name = text"
   blank    dict(k='blank', text=str)                     # '' or only blanks
   comment  dict(k='comment', indent=int, text=str)       # comment-only line at an arbitrary indentation
@@ -80,7 +83,7 @@ def layout(prog, widths=(2, 2, 2, 2), per_parent=None):
             indents.append(ln.get("indent", 0))
             continue
         d = ln["d"]
-        if ln["k"] == "const":
+        if ln["k"] in ("const", "prop"):
             # property lines are indented deeper than the node they belong to and take no part in the hierarchy
             indents.append(_indent_for(stack, d, widths, per_parent))
             continue
@@ -119,6 +122,8 @@ def render(prog, widths=(2, 2, 2, 2), per_parent=None):
             out.append(sp + ln["name"] + tc)
         elif k == "const":
             out.append(sp + "!constant" + tc)
+        elif k == "prop":
+            out.append(sp + ln["text"] + tc)
         elif k == "decl":
             out.append(sp + ln["name"] + " " + ln["type"] + (ln.get("dims") or "")
                        + ((" " + ln["unit"]) if ln.get("unit") else "") + tc)
@@ -244,7 +249,7 @@ def interpret(prog):
     reject = None
     for ln in prog:
         k = ln["k"]
-        if k in ("blank", "comment", "unitdef"):
+        if k in ("blank", "comment", "unitdef", "prop"):
             continue
         if k == "const":
             if last_node is not None:
@@ -285,6 +290,10 @@ def interpret(prog):
                 else:
                     p["value"] = _as_type(base, ln["lit"]["value"])
                     p["assigned"] = True
+                    if ln.get("approx"):
+                        # value computed by the library in floating point (function result): compared to 1e-12
+                        p["value"] = ln["lit"]["exact"]
+                        p["converted"] = True
             last_node = path
             continue
         # ---- a later occurrence of an existing node: modification
@@ -326,6 +335,9 @@ def interpret(prog):
         else:
             p["value"] = _as_type(p["base"], L["value"])
             p["converted"] = False
+            if ln.get("approx"):
+                p["value"] = L["exact"]
+                p["converted"] = True
         p["assigned"] = True
     if reject:
         raise Rejected(reject)
@@ -360,16 +372,50 @@ class EnvironmentUnreadable(Exception):
     """parse() returned an environment, but env.data() raised on it"""
 
 
-def execute(texts):
+_SCRATCH = None
+
+
+def scratch_file():
+    """per-process scratch file for the add_file entry point (removed by remove_scratch_file)"""
+    global _SCRATCH
+    if _SCRATCH is None:
+        import os
+        import tempfile
+        d = "/dev/shm/dip-A"
+        try:
+            os.makedirs(d, exist_ok=True)
+        except OSError:
+            d = tempfile.gettempdir()
+        _SCRATCH = os.path.join(d, "verif-dip-%d.dip" % os.getpid())
+    return _SCRATCH
+
+
+def remove_scratch_file():
+    import os
+    if _SCRATCH is not None and os.path.exists(_SCRATCH):
+        os.remove(_SCRATCH)
+
+
+def execute(texts, entry="string", functions=None):
     """Parse a chain of DIP texts (text k+1 is parsed by DIP(env_k)); observe env.data(TYPE) and env.data(TUPLE).
 
+    entry: 'string' = DIP.add_string(text), 'file' = the text is written to a scratch file (UTF-8, newlines
+    untranslated) and given to DIP.add_file.  functions: {name: callable} registered with DIP.add_function.
     -> list of observed parameter dicts (path, cls, precision, unsigned, unit, value, tuple_ok)"""
     from scinumtools.dip import DIP
     from scinumtools.dip.settings import Format
     env = None
     for text in texts:
         with DIP(env) as dip:
-            dip.add_string(text)
+            for name, fn in (functions or {}).items():
+                dip.add_function(name, fn)
+            if entry == "file":
+                path = scratch_file()
+                with open(path, "w", encoding="utf-8", newline="") as f:
+                    f.write(text)
+                dip.add_file(path)
+            else:
+                dip.add_string(text)
             env = dip.parse()
     try:
         typed = env.data(Format.TYPE)
